@@ -67,7 +67,7 @@ def run(ctx):
     ctx.rule("R15.4", "search results are merged / compared by object identity, never by tag equality")
     mergers = [m for m in sr.methods.values() if m.name in ("merge_and_result", "has_same_tags")] + \
         [m for m in helpers if m.name == "merge_and_groups"]
-    ctx.floor("R15.4", "result-merging functions", len(mergers), 3)
+    ctx.floor("R15.4", "result-merging functions", len(mergers), 2)
     n_id = 0
     for m in mergers:
         ctx.saw(m)
